@@ -66,3 +66,34 @@ def boxed_more_body(*args, _t, _n=1, **kwargs):
     if _n == 1:
         return BoxedMore(term, "mark-" + _t)
     return (BoxedMore(("O", term, i), f"mark-{_t}-{i}") for i in range(_n))
+
+
+# ---- a second type with its own registered serde (a job may register several)
+class Tagged:
+    def __init__(self, term):
+        self.term = term
+
+    def __eq__(self, other):
+        return type(self) is type(other) and self.term == other.term
+
+    def __repr__(self):
+        return f"Tagged({self.term!r})"
+
+
+def ser_tagged(v) -> bytes:
+    import pickle
+    return pickle.dumps(("tagged", v.term))
+
+
+def des_tagged(b) -> Tagged:
+    import pickle
+    tag, term = pickle.loads(bytes(b))
+    assert tag == "tagged", f"bytes of another serialiser: {tag}"
+    return Tagged(term)
+
+
+def tagged_body(*args, _t, _n=1, **kwargs):
+    term = ("T", _t, tuple(args), tuple(sorted(kwargs.items())))
+    if _n == 1:
+        return Tagged(term)
+    return (Tagged(("O", term, i)) for i in range(_n))
